@@ -46,7 +46,7 @@ CHECKS = {
               "(it+a)-=b, it=jt, it[b], front/back, size, end-begin. next_canonical / prev_canonical are the mixed-radix successor / predecessor "
               "for all 2^D carry patterns, to_linear(from_linear(k))==k. The flat iterator's own ++ / -- (pre and post forms) at a position given "
               "by its digits, one case per carry / borrow pattern, followed by -, [], += (O02.flat.step), and the end position reached by ++ "
-              "followed by -=, -, [] (O02.flat.endstep). Type-level iterator contract (W02). Cursors (home()): indexing, call form, += of an index tuple, the const cursor and stride<k>() designate the element at those offsets (O02.cursor). Zero-size corners: begin() / end() of views with an empty leading or inner extension (zero-based and re-based) delimit size() positions; the flat range of a view with a zero extent in any dimension can be formed, measured, compared and moved by 0 without a trap (this family is compiled with the front end's integer-division check, whose trap the evaluation reports, because the optimiser folds a division by a provably zero value away). All six relational operators on equal and distinct iterators."),
+              "followed by -=, -, [] (O02.flat.endstep). Type-level iterator contract (W02). Cursors (home()): indexing, call form, every split of a partial call (home()(i, j)[k]), += of an index tuple, the const cursor and stride<k>() designate the element at those offsets (O02.cursor). Zero-size corners: begin() / end() of views with an empty leading or inner extension (zero-based and re-based) delimit size() positions; the flat range of a view with a zero extent in any dimension can be formed, measured, compared and moved by 0 without a trap (this family is compiled with the front end's integer-division check, whose trap the evaluation reports, because the optimiser folds a division by a provably zero value away). All six relational operators on equal and distinct iterators."),
         design_ref="DESIGN.md 3/C02",
         note=IRNOTE + " Flat-range laws here are for zero-based views (re-based: C19). Data-dependent carries are covered by the "
              "exhaustive carry-pattern case split (positions written in mixed radix, decided with a Euclidean-division rule under the case's sign "
@@ -83,7 +83,7 @@ CHECKS = {
         text=("For every assignment-through-view form (view = view / array / moved view, swap of views, elements() = elements(), array_ref = array_ref, "
               "row = row, fill): no path writes base_ or the layout of any array or view, allocates, deallocates, constructs or destroys (cannot rebind, "
               "resize or reallocate); the normal path reaches an element-assignment primitive; source and destination are traversed by the same kind of "
-              "range. Plus rvalue-ness of element_moved / moved arrays at the type level. The extents assertion is C20. R05.count: counted primitives cover exactly the destination's elements. R05.viewflat: as R04.viewflat, for assignment and swap through views."),
+              "range. Plus rvalue-ness of element_moved / moved arrays at the type level. The extents assertion is C20. R05.count: counted primitives cover exactly the destination's elements. R05.viewflat: as R04.viewflat, for assignment and swap through views. R05.moves: assignment from an element-moved view traverses its source as a range over move_ptr<T> (elements are moved from), not over move_ptr<T const>."),
         design_ref="DESIGN.md 3/C05", note=ANOTE,
         technique="effect rules over abstract-interpretation event traces of -O0 LLVM IR + compile-time witnesses",
     ),
@@ -92,7 +92,7 @@ CHECKS = {
         text=("reextent (three overloads): effect-free early return on equal extents; on resizing paths allocate, construct ALL new elements, copy over "
               "intersection(this->extensions(), new extensions), then destroy / deallocate old and commit; clear() ends empty; reshape touches only "
               "the layout. intersection(range / extension_t / extensions_t<1,2>) is exact for ALL integers: evaluated in the polynomial domain under "
-              "every weak ordering of its four endpoints (exhaustive for a function that only compares). assign(first, last) keeps the storage only on paths guarded by equal count and, for D > 1, equal item extents; otherwise it rebuilds (R06.assign); the same for assignment from an initializer list."),
+              "every weak ordering of its four endpoints (exhaustive for a function that only compares). assign(first, last) keeps the storage only on paths guarded by equal count and, for D > 1, equal item extents; otherwise it rebuilds (R06.assign); the same for assignment from an initializer list; the items' extents are compared (first and begin() dereferenced) only on paths that established a non-empty range. clear() writes the layout of the empty extensions (not a zero-filled layout object)."),
         design_ref="DESIGN.md 3/C06", note=ANOTE + " Engine L trusted base as for C01.",
         technique="order / effect rules over abstract-interpretation traces + order-type enumeration in the polynomial IR domain",
     ),
@@ -103,7 +103,7 @@ CHECKS = {
               "(7 operand mixes x D, element ranges, and the value layer - range, extensions_t, layout_t, iterators - down to integer comparisons); "
               "a <= b == (a < b or a == b); a > b == b < a; a >= b == b <= a; a == b compares extensions() of every dimension; the six operators "
               "exist for D = 1..3 (4 thorough) and array / view / reference mixes (type level); range == range is 'both empty or same endpoints' "
-              "for all integers (order-type enumeration). Combinations of paths whose integer comparison atoms are jointly unsatisfiable (difference constraints over pure terms) are not combinations. R07.deep: a == b yields true only on paths that reach the element comparison or establish that both operands are the same view (base and complete layout)."),
+              "for all integers (order-type enumeration). Comparisons written as loops over the elements are followed for three visits of each block per path (recorded in the evidence). Combinations of paths whose integer comparison atoms are jointly unsatisfiable (difference constraints over pure terms) are not combinations. R07.deep: a == b yields true only on paths that reach the element comparison or establish that both operands are the same view (base and complete layout)."),
         design_ref="DESIGN.md 3/C07", note=ANOTE + " Relations between operators that resolve to different equality implementations for the same operand types (array_ref's flat "
              "comparison vs the view comparison) are recorded as not comparable, not claimed. Not decided: the lexicographic order itself and transitivity over values.",
         technique="decision-tree extraction by abstract interpretation of -O0 LLVM IR; propositional relation check; compile-time witnesses; order types",
@@ -115,7 +115,7 @@ CHECKS = {
               "assigned while dead, deallocated while alive or twice; every block is released with the element count it was requested with (count terms "
               "compared structurally); each array ends in INV; no block is unowned. With a trivially default constructible element the sizing "
               "constructors and reextent(x) contain no element-construction event. INV at every public boundary gives exactly-once construction / "
-              "destruction over all histories by induction. R08.trivial also for 0-dimensional arrays (their own class specialisation; separate driver)."),
+              "destruction over all histories by induction. R08.trivial also for 0-dimensional arrays (their own class specialisation; separate driver). R08.ctor-indep: with an element type that is only trivially destructible (not trivially default constructible) every operation reaches the same element-construction primitives as with the fully observable element (differential instantiation)."),
         design_ref="DESIGN.md 3/C08, 2.1", note=ANOTE,
         technique="typestate analysis by path-sensitive abstract interpretation of -O0 LLVM IR",
     ),
@@ -251,7 +251,7 @@ CHECKS = {
               "sibling path ends in the assertion handler before any element write. (3) For each of ~70 owning-array / view operations per D the "
               "abstract event traces of the normal paths are identical with assertions enabled, with -DNDEBUG and with -DBOOST_MULTI_ASSERT_DISABLE "
               "(assertion conditions have no observable effect). (4) No NDEBUG-conditional code in the core headers. (5) Polynomial evaluation of "
-              "assertion-enabled -O2 IR: in-domain symbolic accesses reach no handler and give the C01 closed forms, out-of-range ones always reach it. For flat copies of D > 1 operands (array_ref assignment, elements() assignment) only a comparison over all dimensions counts as the guarding assertion. View assignment and swap of D > 1 operands need a comparison of the extents of every dimension (whole extensions, or one comparison per level of a row-wise recursion). O20.silent.flat: every flat position of row-major and column-major padded 2-D views is reached by +=, -=, [] without an assertion. D = 2 indexing with non-zero index bases through the mutable and the const overload."),
+              "assertion-enabled -O2 IR: in-domain symbolic accesses reach no handler and give the C01 closed forms, out-of-range ones always reach it (element access, slicing, taked(n) / dropped(n) counts). For flat copies of D > 1 operands (array_ref assignment, elements() assignment) only a comparison over all dimensions counts as the guarding assertion. View assignment and swap of D > 1 operands need a comparison of the extents of every dimension (whole extensions, or one comparison per level of a row-wise recursion). O20.silent.flat: every flat position of row-major and column-major padded 2-D views is reached by +=, -=, [] without an assertion. D = 2 indexing with non-zero index bases through the mutable and the const overload."),
         design_ref="DESIGN.md 3/C20", note=ANOTE + " Engine L trusted base as for C01. Not decided: silence of every assertion for every valid program (undecidable in general).",
         technique="dominator analysis on -O0 LLVM IR, differential abstract interpretation across assertion configurations, preprocessor scan, polynomial IR evaluation",
     ),
